@@ -3,6 +3,7 @@
 -/
 import CC.ChaCha.Wide
 import CC.Thm.C01
+import CC.Thm.C15Eq
 namespace CC.Thm.C15
 open CC CC.Simd CC.ChaCha CC.ChaCha.Spec
 
